@@ -37,7 +37,7 @@ func (r *bstRunner) Do(op []string) string {
 			}
 			items = append(items, "["+itoa(it.Key)+","+itoa(it.Val)+"]")
 		})
-		return list(items)
+		return plist(items)
 	}
 	panic("harness: bad op " + op[0])
 }
@@ -68,7 +68,7 @@ func (r *btreeRunner) Do(op []string) string {
 		r.t.Traverse(func(k, v int) {
 			items = append(items, "["+itoa(k)+","+itoa(v)+"]")
 		})
-		return list(items)
+		return plist(items)
 	}
 	panic("harness: bad op " + op[0])
 }
@@ -91,7 +91,7 @@ func drain(q trie.Queuer[string]) string {
 			panic(hangSignal{})
 		}
 	}
-	return list(items)
+	return plist(items)
 }
 
 func (r *trieRunner) Do(op []string) string {
